@@ -17,22 +17,87 @@ func (e Edge) To() *ssa.BasicBlock { return e.From.Succs[e.Succ] }
 type EdgeSet map[Edge]bool
 
 // Reach computes the blocks reachable from start without crossing removed edges and without entering blocked blocks.
-// start itself is always included.
+// start itself is always included. It threads jumps through boolean phis: when a block is entered over an edge on
+// which the phi tested by the block's own If is a constant (`x := a || b; if x {…}` compiles to that), only the
+// matching successor is followed from that entry.
 func Reach(start *ssa.BasicBlock, removed EdgeSet, blocked map[*ssa.BasicBlock]bool) map[*ssa.BasicBlock]bool {
+	return reachFrom(start, nil, removed, blocked)
+}
+
+// ReachFromEdge is Reach from the target of e, knowing that the target is entered over e.
+func ReachFromEdge(e Edge, removed EdgeSet, blocked map[*ssa.BasicBlock]bool) map[*ssa.BasicBlock]bool {
+	return reachFrom(e.To(), e.From, removed, blocked)
+}
+
+// threadedSucc: entering b from pred, is the outcome of b's If already decided? Returns the only feasible successor
+// index, or -1.
+func threadedSucc(pred, b *ssa.BasicBlock) int {
+	if pred == nil {
+		return -1
+	}
+	iff := ifOf(b)
+	if iff == nil {
+		return -1
+	}
+	atom, neg := condAtom(iff.Cond)
+	phi, ok := atom.(*ssa.Phi)
+	if !ok || phi.Block() != b {
+		return -1
+	}
+	// the block must do nothing but select and branch (otherwise the phi could be redefined between entries)
+	val := -1
+	for i, p := range b.Preds {
+		if p != pred {
+			continue
+		}
+		c, isC := ConstBool(phi.Edges[i])
+		if !isC {
+			return -1
+		}
+		v := 0
+		if c != neg {
+			v = 1
+		}
+		if val >= 0 && val != v {
+			return -1
+		}
+		val = v
+	}
+	if val < 0 {
+		return -1
+	}
+	if val == 1 {
+		return 0 // condition true: first successor
+	}
+	return 1
+}
+
+func reachFrom(start, startPred *ssa.BasicBlock, removed EdgeSet, blocked map[*ssa.BasicBlock]bool) map[*ssa.BasicBlock]bool {
 	seen := map[*ssa.BasicBlock]bool{start: true}
+	allowed := map[*ssa.BasicBlock]int{} // bit i: successor i may be followed
+	all := func(b *ssa.BasicBlock) int { return (1 << uint(len(b.Succs))) - 1 }
+	if t := threadedSucc(startPred, start); t >= 0 {
+		allowed[start] = 1 << uint(t)
+	} else {
+		allowed[start] = all(start)
+	}
 	work := []*ssa.BasicBlock{start}
 	for len(work) > 0 {
 		b := work[len(work)-1]
 		work = work[:len(work)-1]
 		for i, s := range b.Succs {
-			if removed[Edge{b, i}] || seen[s] {
+			if allowed[b]&(1<<uint(i)) == 0 || removed[Edge{b, i}] || blocked[s] {
 				continue
 			}
-			if blocked[s] {
-				continue
+			mask := all(s)
+			if t := threadedSucc(b, s); t >= 0 {
+				mask = 1 << uint(t)
 			}
-			seen[s] = true
-			work = append(work, s)
+			if !seen[s] || allowed[s]|mask != allowed[s] {
+				seen[s] = true
+				allowed[s] |= mask
+				work = append(work, s)
+			}
 		}
 	}
 	return seen
